@@ -652,9 +652,12 @@ def check_c04(rep):
                      'test cases of 2 (thorough: 3) code points; (3) the whole preprocessing at the head of RegExp::from (executed from MIR up '
                      'to grapheme_clusters), with case-insensitive matching on or off, neither loses nor invents a test case: every input has a '
                      'case variant in the list that reaches the automaton stage and vice versa (lists of 2-3 test cases of 1-2 code points).')
+    rep.statement += ('  (4) END TO END on small inputs: the whole of build() (from MIR) with case-insensitive matching on 1-2 (3) test cases of 1-2 ASCII '
+                      'letters in either case: the printed pattern starts with (?i) and, read with the engine\'s simple case folding (regex-syntax table), '
+                      'accepts a string x -- every scalar value at every position, so KELVIN SIGN and LONG S are candidates -- iff x equals a test case '
+                      'up to folding; no two alternatives are case variants of each other.')
     rep.outside = ['test cases containing U+03A3 (final-sigma context of str::to_lowercase is not modelled)',
-                   'longer lists / longer test cases than the stated bounds',
-                   'presence of (?i) in the printed pattern', 'the automaton pipeline after preprocessing']
+                   'longer lists / longer test cases than the stated bounds', 'end to end: test cases outside A-Za-z']
     rep.assumptions += ['(2) and (3) treat to_lowercase / to_uppercase as uninterpreted per-code-point mappings constrained by lemmas that (1) '
                         'decides on the real tables in the same run; a counterexample of the abstraction is re-decided with the real tables '
                         '(std dump + regex-syntax folding) before it is replayed']
@@ -734,6 +737,49 @@ def check_c04(rep):
                 repro, what = c04_list_replay(env, cases_, ci_)
                 key = 'cases=%s,ignore_case=%s' % ('/'.join('+'.join(u(x) for x in c_) for c_ in cases_), str(ci_).lower())
                 classify(rep, known, o.qid, key, what, {'inputs': {'cases': cases_, 'ignore_case': ci_}}, repro)
+    # end to end: the whole of build() with case-insensitive matching on small inputs of ASCII letters in either case
+    tspecs = [((1,), {}), ((1, 1), {}), ((2, 1), {})] + ([((2, 2), {}), ((1, 1, 1), {}), ((2, 1), {'verbose': True}), ((2, 1), {'capture': True})] if rep.tier == 'thorough' else [])
+    env.prefetch([('q04t', (lens, stg), {}) for lens, stg in tspecs])
+    for lens, stg in tspecs:
+        o = ob_add(rep, env.run('q04t', lens, stg))
+        if o.result != 'sat':
+            continue
+        nat = {{'verbose': 'verbose', 'capture': 'capture_groups'}[k]: True for k, v in stg.items() if v}
+        for m in o.verdict.models:
+            cases_ = [[m['s%d_%d' % (i, j)] for j in range(n)] for i, n in enumerate(lens)]
+            if m['xlen'] == 0xFFFF:
+                # two alternatives of the pattern are case variants of each other: visible in the pattern text itself
+                got = env.eval([{'op': 'build', 'cases': cases_, 'settings': dict(nat, ignore_case=True)}])
+                txt = ''.join(map(chr, got[0].get('ok') or []))
+                alts = re.sub(r'^\(\?i\)\^\(\?:|\)\$$|^\(\?i\)\^|\$$', '', txt).split('|')
+                dup = len(set(a_.lower() for a_ in alts)) < len(alts)
+                key = 'collapse,cases=%s' % '|'.join(''.join(map(chr, t)) for t in cases_)
+                classify(rep, known, 'Q04t', key, 'build(%s, ignore_case) = %s keeps alternatives that differ only in case' % ([''.join(map(chr, t)) for t in cases_], json.dumps(txt)),
+                         {'inputs': {'ci_cases': cases_, 'settings': nat, 'x': []}, 'observed': got}, dup)
+                continue
+            x = [m['x%d' % i] for i in range(m['xlen'])]
+            bad, what, obs = replay_ci(env, cases_, nat, x)
+            key = 'cases=%s,x=%s%s' % ('|'.join(''.join(map(chr, t)) for t in cases_), '+'.join(u(c) for c in x), ''.join(',' + k for k in sorted(nat)))
+            classify(rep, known, 'Q04t', key, what, {'inputs': {'ci_cases': cases_, 'settings': nat, 'x': x}, 'observed': obs}, bad)
+
+
+def replay_ci(env, cases, settings, x):
+    """end to end on the real build: build() with case-insensitive matching, the real regex crate on the candidate x; the reference is
+    "x equals some test case up to the engine's case folding", asked of the regex crate itself with (?i)^<test case>$"""
+    st_ = dict(settings, ignore_case=True)
+    got = env.eval([{'op': 'build', 'cases': cases, 'settings': st_}])
+    pat = got[0].get('ok')
+    if pat is None:
+        return True, 'build() panics: %s' % str(got[0])[:200], {}
+    txt = ''.join(map(chr, pat))
+    flag_ok = txt.startswith('(?ix)' if settings.get('verbose') else '(?i)')
+    r = env.eval([{'op': 'regex_find', 'pattern': pat, 'text': x}] + [{'op': 'regex_find', 'pattern': [ord(ch) for ch in '(?i)^'] + t + [36], 'text': x} for t in cases])
+    full = lambda g: isinstance(g.get('ok'), list) and g['ok'][0] == 0 and g['ok'][1] == g['ok'][2]
+    accepted, expected = full(r[0]), any(full(g) for g in r[1:])
+    what = 'build(%s, ignore_case%s) = %s %s %s, which %s a case variant of a test case%s' % (
+        [''.join(map(chr, t)) for t in cases], ''.join(',' + k for k in sorted(settings) if settings[k]), json.dumps(txt), 'accepts' if accepted else 'rejects',
+        json.dumps(''.join(map(chr, x))), 'is' if expected else 'is not', '' if flag_ok else '; the (?i) flag is missing')
+    return accepted != expected or not flag_ok, what, {'pattern': pat, 'accepted': accepted, 'expected': expected}
 
 
 def c04_list_replay(env, cases_, ci_):
@@ -747,6 +793,9 @@ def c04_list_replay(env, cases_, ci_):
 
 
 def replay_c04(env, rec):
+    if 'ci_cases' in rec['inputs']:
+        bad, what, _ = replay_ci(env, rec['inputs']['ci_cases'], rec['inputs']['settings'], rec['inputs']['x'])
+        return bad, what
     if 'cases' in rec['inputs']:
         return c04_list_replay(env, rec['inputs']['cases'], rec['inputs']['ignore_case'])
     c = rec['inputs']['c']
@@ -1020,7 +1069,7 @@ def check_c10(rep):
             cases_ = [[m['s%d_%d' % (i, j)] for j in range(n)] for i, n in enumerate(lens)]
             nat = {SEARCH_SMAP[k]: True for k, v in stg.items() if v}
             outs_ = replay_many_processes(env, cases_, nat)
-            key = 'hash-order,cases=%s,%s' % (canonical_shape(cases_), ','.join(sorted(nat)) or 'default')
+            key = 'hash-order,cases=%s,%s' % (canonical_words(cases_), ','.join(sorted(nat)) or 'default')
             what = 'build(%s, %s) printed %d different texts in %d runs: %s' % ([''.join(map(chr, c_)) for c_ in cases_], ','.join(sorted(nat)) or 'default',
                                                                               len(set(outs_)), len(outs_), json.dumps(sorted(set(outs_))[:3]))
             classify(rep, known, 'Q10h', key, what, {'inputs': {'hash_order_cases': cases_, 'settings': nat}, 'observed': sorted(set(outs_))}, len(set(outs_)) > 1)
@@ -1036,7 +1085,7 @@ def check_c10(rep):
             outs_ = replay_many_processes(env, cases_, nat)
             if len(set(outs_)) > 1:
                 repro_here += 1
-                key = 'hash-order,cases=%s,%s' % (canonical_shape(cases_), ','.join(sorted(nat)))
+                key = 'hash-order,cases=%s,%s' % (canonical_words(cases_), ','.join(sorted(nat)))
                 what = 'build(%s, %s) printed %d different texts in %d runs: %s' % ([''.join(map(chr, c_)) for c_ in cases_], ','.join(sorted(nat)),
                                                                                   len(set(outs_)), len(outs_), json.dumps(sorted(set(outs_))[:3]))
                 classify(rep, known, 'Q10h', key, what, {'inputs': {'hash_order_cases': cases_, 'settings': nat}, 'observed': sorted(set(outs_))}, True)
@@ -1427,7 +1476,7 @@ def check_c05(rep):
     # printing of {n} / {m,n}: the quantifier must apply to the whole unit
     known, _ = load_known()
     deep = rep.tier == 'thorough'
-    for n, ranged in ((1, False), (1, True), (2, False)) + (((2, True),) if deep else ()):
+    for n, ranged in ((1, False), (1, True), (2, False), (2, True)):
         o = decide_unit_obligation(rep, Q.q05g, env.ctx, n, ranged, all_counts=deep)
         if o.result != 'sat':
             continue
@@ -1621,7 +1670,10 @@ def check_c16(rep):
                      'return_next_state, find_next_state with its edge-label widening, add_new_state -- executed from MIR over a concrete-shape '
                      'model of petgraph\'s StableGraph) accepts exactly the union of the inserted clusters. On this tree it does NOT: the solver '
                      'returns the complete set of violating input shapes within the bound (known finding F5, edge widening conflates prefixes).')
-    rep.outside = ['printing of the expression (format.rs)', 'HashSet iteration orders other than insertion order (the real order depends on per-process hash seeds)',
+    rep.statement += ('  (4) printing: the whole of build() incl. Display for RegExp / Expression / Grapheme and format.rs from MIR; the printed pattern, parsed '
+                      'back, denotes exactly the test cases (2 test cases of 1-2 letters; 3 test cases of 1 printable ASCII character, so character classes with '
+                      'ranges and escapes) -- the same obligations as C02.')
+    rep.outside = ['HashSet iteration orders other than insertion order (see C10 (C))',
                    'clusters with multi-code-point graphemes, counts > 3, more clusters than the stated shapes']
     rep.assumptions += ['petgraph StableGraph is modelled with a concrete shape: nodes, edges in insertion order, neighbors() newest edge first, '
                         'update_edge replaces the weight of an existing edge; BTreeSet/HashSet as duplicate-free lists']
@@ -1640,6 +1692,9 @@ def check_c16(rep):
                 bad, what, obs = replay_minimised(env, cases)
                 classify(rep, known, 'Q16e', 'cases=%s' % canonical_shape([[(c, 1) for c in s_] for s_ in cases]), what,
                          {'inputs': {'min_cases': cases}, 'observed': obs}, bad)
+    # (4) the printed pattern denotes that same language: the whole of build() incl. Display (format.rs: classes with ranges, groups, escaping)
+    run_default_text_obligations(rep, env, known, [((2, 1), False, 'letters'), ((1, 1, 1), False, 'ascii')] +
+                                 ([((2, 2), False, 'letters'), ((1, 1, 1), False, 'letters'), ((2,), False, 'ascii'), ((2, 1), False, 'ascii')] if rep.tier == 'thorough' else []))
 
 
 def replay_c16(env, rec):
@@ -1731,7 +1786,7 @@ def check_c06(rep):
     run_text_obligations(rep, env, known, specs)
 
 
-def canonical_shape(cases):
+def canonical_words(cases):
     names = {}
     return '|'.join(''.join(names.setdefault(c, chr(ord('a') + len(names))) for c in s_) or '""' for s_ in cases)
 
@@ -1772,7 +1827,7 @@ def run_search_obligations(rep, env, known, e2e_specs, unit_specs):
         for m in o.verdict.models:
             cases = [[m['s%d_%d' % (i, j)] for j in range(n)] for i, n in enumerate(lens)]
             bad, what, obs = replay_search(env, cases, nat)
-            key = 'search=%s,%s' % (canonical_shape(sorted(cases, key=lambda c: (len(c), c))), ','.join(sorted(nat)))
+            key = 'search=%s,%s' % (canonical_words(sorted(cases, key=lambda c: (len(c), c))), ','.join(sorted(nat)))
             classify(rep, known, 'Q08s', key, what, {'inputs': {'search': cases, 'settings': nat}, 'observed': obs}, bad)
     unit_only = 0
     for i_, (sk, settings, second, kinds) in enumerate(unit_specs):
@@ -1785,7 +1840,7 @@ def run_search_obligations(rep, env, known, e2e_specs, unit_specs):
             cases = [[m[v_] for v_ in w] for w in o.extra['cases_vars']]
             cases = [list(t) for t in sorted(set(tuple(c) for c in cases), key=lambda c: (len(c), c))]
             bad, what, obs = replay_search(env, cases, nat)
-            key = 'search=%s,%s' % (canonical_shape(cases), ','.join(sorted(nat)))
+            key = 'search=%s,%s' % (canonical_words(cases), ','.join(sorted(nat)))
             if bad:
                 repro_here += 1
                 classify(rep, known, 'Q08s', key, what, {'inputs': {'search': cases, 'settings': nat}, 'observed': obs}, True)
@@ -1941,6 +1996,32 @@ def run_text_obligations(rep, env, known, specs):
                      {'inputs': {'pipeline': cases, 'settings': nat_settings, 'clause': 'exact'}, 'observed': obs}, bad)
 
 
+def run_default_text_obligations(rep, env, known, specs):
+    """Q02t under default settings: the language of the printed pattern is exactly the set of test cases; specs: [(lens, with_empty, domain)]"""
+    env.prefetch([('q02t', (lens, with_empty, dom), {}) for lens, with_empty, dom in specs])
+    for lens, with_empty, dom in specs:
+        o = ob_add(rep, env.run('q02t', lens, with_empty, dom))
+        if o.result != 'sat':
+            continue
+        for m in o.verdict.models:
+            cases = ([[]] if with_empty else []) + [[m['s%d_%d' % (i, j)] for j in range(n)] for i, n in enumerate(lens)]
+            bad, what, obs = replay_pipeline(env, cases, {}, 'exact')
+            if not bad and obs.get('pattern') and m.get('xqlen', 0) and m['xqlen'] <= max(lens) + 2:
+                # the solver's own candidate string (it may use characters that are in no test case, e.g. inside a class range)
+                xq = [m['xq%d' % i] for i in range(m['xqlen'])]
+                if all(c < 0x110000 and not 0xD800 <= c <= 0xDFFF for c in xq):
+                    g = env.eval([{'op': 'regex_find', 'pattern': obs['pattern'], 'text': xq}])[0].get('ok')
+                    acc = isinstance(g, list) and g[0] == 0 and g[1] == g[2]
+                    if acc != (xq in cases):
+                        bad = True
+                        what += ' %s %s, which is %sa test case' % ('accepts' if acc else 'rejects', json.dumps(''.join(map(chr, xq))), '' if xq in cases else 'not ')
+            if with_empty and obs.get('missing') == [[]] and not obs.get('extra'):
+                key = 'empty-test-case-lost'
+            else:
+                key = 'cases=%s' % '|'.join('+'.join(u(x) for x in s_) or '""' for s_ in cases)
+            classify(rep, known, 'Q02t', key, what, {'inputs': {'pipeline': cases, 'settings': {}, 'clause': 'exact'}, 'observed': obs}, bad)
+
+
 def check_c02(rep):
     rep.statement = ('bounded, END TO END for small inputs: (b) the whole of build() -- RegExp::from followed by Display for RegExp / Expression / Grapheme '
                      '(format.rs: alternations, character classes with ranges, concatenations, groups, escaping) -- is executed from MIR on test cases of '
@@ -1962,21 +2043,10 @@ def check_c02(rep):
     thorough = quick + [((3, 2), False, False), ((2, 2, 1), False, False), ((3, 3), False, False), ((2, 1), True, False)]
     run_pipeline_obligations(rep, env, known, quick if rep.tier == 'quick' else thorough, 'exact')
     # the same pipeline followed by Display for RegExp: the language of the PRINTED text (parsed back) is the set of test cases
-    tq = [((1, 1), False, 'letters'), ((2, 1), False, 'letters'), ((1,), False, 'ascii'), ((1, 1), False, 'ascii'), ((2,), False, 'ascii'), ((1,), True, 'letters')]
-    tt = tq + [((2, 2), False, 'letters'), ((1, 1, 1), False, 'letters'), ((1, 1, 1), False, 'ascii'), ((2, 1), False, 'ascii'), ((3, 2), False, 'letters')]
-    env.prefetch([('q02t', (lens, with_empty, dom), {}) for lens, with_empty, dom in (tq if rep.tier == 'quick' else tt)])
-    for lens, with_empty, dom in (tq if rep.tier == 'quick' else tt):
-        o = ob_add(rep, env.run('q02t', lens, with_empty, dom))
-        if o.result != 'sat':
-            continue
-        for m in o.verdict.models:
-            cases = ([[]] if with_empty else []) + [[m['s%d_%d' % (i, j)] for j in range(n)] for i, n in enumerate(lens)]
-            bad, what, obs = replay_pipeline(env, cases, {}, 'exact')
-            if with_empty and obs.get('missing') == [[]] and not obs.get('extra'):
-                key = 'empty-test-case-lost'
-            else:
-                key = 'cases=%s' % '|'.join('+'.join(u(x) for x in s_) or '""' for s_ in cases)
-            classify(rep, known, 'Q02t', key, what, {'inputs': {'pipeline': cases, 'settings': {}, 'clause': 'exact'}, 'observed': obs}, bad)
+    tq = [((1, 1), False, 'letters'), ((2, 1), False, 'letters'), ((1,), False, 'ascii'), ((1, 1), False, 'ascii'), ((2,), False, 'ascii'), ((1,), True, 'letters'),
+          ((2, 2), False, 'letters'), ((1, 1, 1), False, 'ascii')]
+    tt = tq + [((1, 1, 1), False, 'letters'), ((2, 1), False, 'ascii'), ((3, 2), False, 'letters'), ((2, 2, 1), False, 'letters'), ((3,), False, 'ascii')]
+    run_default_text_obligations(rep, env, known, tq if rep.tier == 'quick' else tt)
 
 
 def check_c01(rep):
